@@ -67,8 +67,8 @@ class SeqLeg(object):
                     draw(st.sampled_from(["chr1", "chr1", "chr2"])),
                     draw(st.sampled_from(["s1", "s1", "s2"])),
                     draw(st.sampled_from(["exon", "exon", "CDS"])),
-                    str(draw(st.sampled_from([10, 10, 15]))),
-                    str(draw(st.sampled_from([50, 50, 60]))),
+                    draw(st.sampled_from(["10", "10", "15", "."])),
+                    draw(st.sampled_from(["50", "50", "60", "."])),
                     draw(st.sampled_from([".", ".", "5"])),
                     draw(st.sampled_from(["+", "+", "-"])),
                     draw(st.sampled_from([".", ".", "0"])),
